@@ -171,8 +171,11 @@ def gen_spec(rng, backend=None, max_n=3):
         opsl.append({"op": "Gaussian", "V": V, "r": r, "m": modes, "decomp": rng.random() < 0.5, "dg": False})
     if backend == "bosonic" and rng.random() < 0.6:
         m = rng.randrange(n)
-        if rng.random() < 0.6:
+        u = rng.random()
+        if u < 0.45:
             opsl.append({"op": "Catstate", "p": [_r3(rng.uniform(0.4, 1.2)), _r3(rng.uniform(0, 1)), rng.choice([0, 1])], "m": [m], "dg": False})
+        elif u < 0.7:
+            opsl.append({"op": "GKP", "state": [rng.choice([0.0, HALFPI, 0.6]), rng.choice([0.0, 0.4])], "eps": rng.choice([0.35, 0.5]), "m": [m], "dg": False})
         else:
             opsl.append({"op": "Fock", "p": [1], "m": [m], "dg": False})
     for _ in range(rng.randint(1, 6)):
@@ -191,6 +194,14 @@ def gen_spec(rng, backend=None, max_n=3):
         opsl.append({"op": "MeasureHomodyne", "phi": draw(rng, "a"), "select": sel, "m": [m], "dg": False})
         if rng.random() < 0.6:
             opsl.append(gen_op(rng, n, backend))
+    elif backend in ("gaussian", "bosonic") and n >= 2 and rng.random() < 0.3:
+        sel = None if rng.random() < 0.3 else [_r3(rng.uniform(-0.6, 0.6)), _r3(rng.uniform(-0.6, 0.6))]
+        opsl.append({"op": "MeasureHeterodyne", "select": sel, "m": [rng.randrange(n)], "dg": False})
+        if rng.random() < 0.6:
+            opsl.append(gen_op(rng, n, backend))
+    if backend in ("gaussian", "fock") and rng.random() < 0.2:
+        k = rng.randint(1, n)
+        opsl.append({"op": "MeasureFock", "m": sorted(rng.sample(range(n), k)), "dg": False})
     spec = {"backend": backend, "n": n, "ops": opsl}
     if backend == "fock":
         spec["cutoff"] = rng.choice([6, 7, 8])
@@ -258,6 +269,12 @@ def make_op(o, h):
         return ops.MeasureHomodyne(o["phi"], select=None if o["select"] is None else o["select"] * s)
     if name == "MSgate":
         return ops.MSgate(*o["p"], avg=o["avg"])
+    if name == "GKP":
+        return ops.GKP(state=list(o["state"]), epsilon=o["eps"])
+    if name == "MeasureHeterodyne":
+        return ops.MeasureHeterodyne(select=None if o["select"] is None else complex(*o["select"]))
+    if name == "MeasureFock":
+        return ops.MeasureFock()
     if name in POWERS:
         op = getattr(ops, name)(*[p * s ** k for p, k in zip(o["p"], POWERS[name])])
     else:
@@ -314,10 +331,24 @@ def observables(spec, h, which=None):
             except Exception as e:  # error kinds must agree too
                 out[name] = "raises:" + type(e).__name__
 
-        # measurement results
-        homo = [o["m"][0] for o in spec["ops"] if o["op"] == "MeasureHomodyne"]
-        if homo:
-            put("samples", lambda: [res.samples_dict[m][-1] / rt for m in sorted(set(homo))])
+        # measurement results, in program order
+        def collect(kind, unit):
+            idx, vals = {}, []
+            for o in spec["ops"]:
+                if o["op"] in ("MeasureHomodyne", "MeasureHeterodyne", "MeasureFock"):
+                    for m in o["m"]:
+                        i = idx.get(m, 0)
+                        idx[m] = i + 1
+                        if o["op"] == kind:
+                            vals.append(np.ravel(res.samples_dict[m][i])[0] / unit)
+            return vals
+        kinds = {o["op"] for o in spec["ops"]}
+        if "MeasureHomodyne" in kinds:
+            put("samples", lambda: collect("MeasureHomodyne", rt))
+        if "MeasureHeterodyne" in kinds:
+            put("samples:heterodyne", lambda: collect("MeasureHeterodyne", 1.0))
+        if "MeasureFock" in kinds:
+            put("samples:fock", lambda: collect("MeasureFock", 1.0))
         if be == "bosonic":
             put("ancillae_samples", lambda: [v / rt for k in sorted(res.ancillae_samples) for v in res.ancillae_samples[k]])
         alpha = np.array([complex(a, b) for a, b in q["alpha"]])
@@ -828,10 +859,14 @@ def corr_frontend(ctx):
 def tie_broken(ctx, sig, msg, spec, h):
     """Model and implementation differ: evaluate the property's own predicate there first."""
     h2 = 2.0 if h != 2 else 0.5
-    try:
-        bad, _ = compare_pair(spec, h, h2)
-    except Exception:
-        bad = []
+    cnt = ctx.extra.setdefault("_tie_evals", {})
+    cnt[sig] = cnt.get(sig, 0) + 1
+    bad = []
+    if cnt[sig] <= 8:  # the predicate is evaluated on the first few disagreeing inputs of each kind
+        try:
+            bad, _ = compare_pair(spec, h, h2)
+        except Exception:
+            bad = []
     for name, v1, v2 in bad:
         ctx.counterexample(signature(spec, name), "%s on the %s backend is not hbar-independent: hbar=%s gives %s, hbar=%s gives %s" % (name, spec["backend"], h, v1, h2, v2),
                            {"check": "pair", "spec": spec, "h1": h, "h2": h2, "obs": name})
